@@ -98,6 +98,25 @@ Section Shaped.
         apply Forall_app; auto.
   Qed.
 
+  (* depths of the leaves below x (0 = x itself is a leaf) *)
+  Fixpoint leaf_depths (x : node) : list nat :=
+    match x with
+    | Node _ _ [] => [0]
+    | Node _ _ cs => map S (flat_map leaf_depths cs)
+    end.
+
+  Lemma shaped_leaf_depths d x : shaped d x -> Forall (fun h => h = d) (leaf_depths x).
+  Proof.
+    revert x; induction d as [|d IH]; intros [id kvs cs] H.
+    - apply shaped_0_inv in H. destruct H as [_ ->]. simpl. constructor; [reflexivity|constructor].
+    - apply shaped_S_inv in H. destruct H as (_ & Hl & F).
+      destruct cs as [|c cs]; [discriminate|].
+      change (leaf_depths (Node id kvs (c :: cs))) with (map S (flat_map leaf_depths (c :: cs))).
+      apply Forall_map. apply Forall_flat_map.
+      eapply Forall_impl; [|exact F]. intros y [_ Hy].
+      eapply Forall_impl; [|apply IH; exact Hy]. intros h ->. reflexivity.
+  Qed.
+
   (* the top node of a tree: an internal root has at least one key *)
   Definition root_ok (x : node) : Prop := ncs x <> [] -> 1 <= nkeys x.
 
